@@ -252,7 +252,9 @@ def check(ctx):
                            f"`{norm(t)}` is assigned on an object that may be shared with the caller's plan (nodes and edge keys "
                            f"are shared between a plan and its copies)", norm(node))
     ctx.floor("C13.M3", "node-attribute stores examined", k, 1)
-    pf = [f for f in m.funcs.values() if f.name == "_create_bound_call_lookup_and_output_slot"]
+    from .extra import rule_result_slots
+    ctx.run(rule_result_slots, "C13.M3")
+    pf = []
     if len(pf) == 1:
         f = pf[0]
         dcs = [n for n in f.own_nodes() if isinstance(n, ast.DictComp)]
